@@ -198,8 +198,8 @@ func (t *tailBuf) Write(p []byte) (int, error) {
 	t.mu.Lock()
 	defer t.mu.Unlock()
 	t.b = append(t.b, p...)
-	if len(t.b) > 8192 {
-		t.b = t.b[len(t.b)-8192:]
+	if len(t.b) > 65536 {
+		t.b = t.b[len(t.b)-65536:]
 	}
 	return len(p), nil
 }
@@ -282,10 +282,41 @@ func procCPU(pid int) time.Duration {
 	return time.Duration(ut+st) * (time.Second / 100)
 }
 
-// Run executes one case in the worker and returns the verdict material.
+// Run executes one case in the worker and returns the verdict material. A worker death or a
+// watchdog expiry only counts when it reproduces on a fresh worker: a long-lived worker under an
+// address-space limit can also die for reasons unrelated to the case (thread creation failing while
+// the machine is busy), and a verdict must be a function of the case alone.
 func Run(name string, payload []byte) Result {
 	mu.Lock()
 	defer mu.Unlock()
+	served++
+	if served%recycleEvery == 0 && cur != nil {
+		cur.kill()
+		cur = nil
+	}
+	r := runOnce(name, payload)
+	if r.Outcome == "died" || r.Outcome == "timeout" {
+		r2 := runOnce(name, payload)
+		if r2.Outcome != r.Outcome {
+			Flaky++
+			if r2.Outcome == "ok" || r2.Outcome == "error" || r2.Outcome == "panic" {
+				return r2
+			}
+			return Result{Outcome: "infra", Msg: fmt.Sprintf("unstable verdict: first %s (%s), then %s (%s)", r.Outcome, r.Msg, r2.Outcome, r2.Msg)}
+		}
+	}
+	return r
+}
+
+const recycleEvery = 1500
+
+var (
+	served int
+	// Flaky counts verdicts that did not reproduce on a fresh worker.
+	Flaky int
+)
+
+func runOnce(name string, payload []byte) Result {
 	for attempt := 0; attempt < 3; attempt++ {
 		if cur == nil {
 			w, err := start()
@@ -349,6 +380,19 @@ func Run(name string, payload []byte) Result {
 					if end > 0 {
 						reason = tail[i : i+end]
 					}
+				}
+				for _, line := range strings.Split(tail, "\n") {
+					if strings.HasPrefix(line, "panic: ") || strings.HasPrefix(line, "fatal error: ") || strings.HasPrefix(line, "runtime: ") {
+						reason = line
+						break
+					}
+				}
+				if reason == "worker process ended" && len(tail) > 0 {
+					t := tail
+					if len(t) > 600 {
+						t = t[len(t)-600:]
+					}
+					reason += "; stderr tail: " + t
 				}
 				return Result{Outcome: "died", Msg: reason, Frame: topRepoFrame(tail)}
 			case <-deadline:
